@@ -324,4 +324,245 @@ theorem historyR_view (c : Cfg) (m : Bytes) (L : Layout) (hr : ReadsAs c m L) (h
       · exact Or.inr ⟨x, Or.inl hx, h⟩
       · exact Or.inr ⟨x, Or.inr (hsub x hx), h⟩
 
+/-! ## a fault is a cut: the commands of a disturbed attempt are a prefix of the undisturbed attempt's -/
+/-- the tag executes exactly the recorded commands -/
+theorem syncUnitsR_tag_apply (u : Nat) (is : List Nat) : ∀ (st : RSR) (f : Option Fault),
+    (syncUnitsR u is st f).st.tag = apply st.tag (syncUnitsR u is st f).cmds := by
+  induction is with
+  | nil => intro st f; rfl
+  | cons i is ih =>
+    intro st f
+    by_cases hne : sliceN st.cache (i * u) (i * u + u) ≠ sliceN st.belief (i * u) (i * u + u) ∨ i ∈ st.dirty
+    · rcases f with _ | ⟨k, late⟩
+      · simp only [syncUnitsR, if_pos hne, Option.map_none]
+        rw [ih]; simp [apply]
+      · cases k with
+        | zero =>
+          simp only [syncUnitsR, if_pos hne]
+          cases late <;> simp [apply]
+        | succ k =>
+          simp only [syncUnitsR, if_pos hne, Option.map_some]
+          rw [ih]; simp [apply]
+    · simp only [syncUnitsR, if_neg hne]
+      exact ih st f
+
+/-- a fault on command `k` of a write-back: the commands of the undisturbed write-back up to the failing one
+(included when the tag executes it); when the write-back has fewer commands it runs undisturbed and hands the fault on -/
+theorem syncUnitsR_fault (u : Nat) (is : List Nat) : ∀ (st : RSR) (k : Nat) (late : Bool),
+    (k < (syncUnitsR u is st none).cmds.length →
+      (syncUnitsR u is st (some ⟨k, late⟩)).cmds = (syncUnitsR u is st none).cmds.take (k + late.toNat) ∧
+      (syncUnitsR u is st (some ⟨k, late⟩)).failed = true) ∧
+    ((syncUnitsR u is st none).cmds.length ≤ k →
+      syncUnitsR u is st (some ⟨k, late⟩) =
+        ⟨(syncUnitsR u is st none).st, (syncUnitsR u is st none).cmds,
+          some ⟨k - (syncUnitsR u is st none).cmds.length, late⟩, false⟩) := by
+  induction is with
+  | nil =>
+    intro st k late
+    simp [syncUnitsR]
+  | cons i is ih =>
+    intro st k late
+    by_cases hne : sliceN st.cache (i * u) (i * u + u) ≠ sliceN st.belief (i * u) (i * u + u) ∨ i ∈ st.dirty
+    · cases k with
+      | zero =>
+        simp only [syncUnitsR, if_pos hne, Option.map_none]
+        constructor
+        · intro _
+          cases late <;> simp
+        · intro h; simp at h
+      | succ k =>
+        simp only [syncUnitsR, if_pos hne, Option.map_none, Option.map_some, Nat.add_sub_cancel]
+        obtain ⟨h1, h2⟩ := ih
+          { tag := writeAt st.tag (i * u) (sliceN st.cache (i * u) (i * u + u)),
+            belief := writeAt st.belief (i * u) (sliceN st.cache (i * u) (i * u + u)),
+            cache := st.cache, dirty := st.dirty.filter (· ≠ i) } k late
+        constructor
+        · intro hk
+          simp only [List.length_cons] at hk
+          obtain ⟨e1, e2⟩ := h1 (by omega)
+          rw [e1, e2]
+          refine ⟨?_, rfl⟩
+          rw [show k + 1 + late.toNat = (k + late.toNat) + 1 by omega, List.take_succ_cons]
+        · intro hk
+          simp only [List.length_cons] at hk
+          rw [h2 (by omega)]
+          simp only [List.length_cons, Nat.add_sub_add_right]
+    · simp only [syncUnitsR, if_neg hne]
+      exact ih st k late
+
+
+
+theorem syncR_tag_apply (u : Nat) (st : RSR) (f : Option Fault) :
+    (syncR u st f).st.tag = apply st.tag (syncR u st f).cmds := syncUnitsR_tag_apply u _ st f
+
+theorem syncR_fault (u : Nat) (st : RSR) (k : Nat) (late : Bool) :
+    (k < (syncR u st none).cmds.length →
+      (syncR u st (some ⟨k, late⟩)).cmds = (syncR u st none).cmds.take (k + late.toNat) ∧
+      (syncR u st (some ⟨k, late⟩)).failed = true) ∧
+    ((syncR u st none).cmds.length ≤ k →
+      syncR u st (some ⟨k, late⟩) =
+        ⟨(syncR u st none).st, (syncR u st none).cmds, some ⟨k - (syncR u st none).cmds.length, late⟩, false⟩) :=
+  syncUnitsR_fault u _ st k late
+
+theorem take_mid {α} (pre x post : List α) (k t : Nat) (h1 : pre.length ≤ k) (h2 : k - pre.length + t ≤ x.length) :
+    pre ++ x.take (k - pre.length + t) = (pre ++ x ++ post).take (k + t) := by
+  rw [List.append_assoc, List.take_append, List.take_of_length_le (l := pre) (by omega),
+    List.take_append_of_le_length (by omega)]
+  congr 2
+  omega
+
+
+
+theorem take_mid' {α} (all pre x post : List α) (hall : all = pre ++ x ++ post) (k t : Nat) (h1 : pre.length ≤ k)
+    (h2 : k - pre.length + t ≤ x.length) : pre ++ x.take (k - pre.length + t) = all.take (k + t) := by
+  rw [hall]; exact take_mid pre x post k t h1 h2
+
+/-- **a fault is a cut**: the commands the tag executes during an attempt with a fault on command `k` are the first
+`k` commands of the undisturbed attempt (`k + 1` when the tag executes the failing command) -/
+theorem writeFromR_fault (c : Cfg) (m : Bytes) (L : Layout) (data : Bytes) (st : RSR) (k : Nat) (late : Bool)
+    (hr : ReadsAs c m L) (hwf : WF c m L) (hcap : (data.length : Int) ≤ L.cap)
+    (hi : InvR c.unit m (L.off + 1) st) :
+    (writeFromR c L st data (some ⟨k, late⟩)).cmds = (writeFromR c L st data none).cmds.take (k + late.toNat) := by
+  have hu : 0 < c.unit := hwf.2.1
+  have harea := hwf.2.2.2.1
+  have hcap' := hcap
+  rw [hr.cap] at hcap'
+  have hfit := (endAddr_le_area L.skip L.off L.areaEnd data.length hcap').1
+  have hh := hdrLen_ge data.length
+  have hCl := hi.len.cache
+  have hlt : L.off + 1 < st.cache.length := by omega
+  have hC1l : (st.cache.set (L.off + 1) 0).length = m.length := by simp [hCl]
+  have hC1b : ∀ x, x < L.off + 1 → (st.cache.set (L.off + 1) 0)[x]? = m[x]? := fun x hx => by
+    rw [get_set_ne _ _ _ _ (by omega)]; exact hi.cache x hx
+  have hC10 : (st.cache.set (L.off + 1) 0)[L.off + 1]? = some 0 := get_set_eq _ _ _ hlt
+  have hr1 : ReadsAs c (st.cache.set (L.off + 1) 0) { L with ndef := [] } := empty_view c m _ L hr hwf hC1b hC10
+  have hwf1 : WF c (st.cache.set (L.off + 1) 0) { L with ndef := [] } := wf_transfer c m _ L hwf hC1l hC1b
+  obtain ⟨m1, m2, m3a, m3, w, _⟩ := roundtrip c (st.cache.set (L.off + 1) 0) { L with ndef := [] } data hr1 hwf1 hcap
+  have hm1 : m1 = st.cache.set (L.off + 1) 0 := by rw [w.m1_eq]; simp
+  have hp1 : phase1 c st.cache L.off = .ok (st.cache.set (L.off + 1) 0) := wr_ok c _ _ _ hlt
+  have hp2 : phase2 c (st.cache.set (L.off + 1) 0) L.off L.skip L.areaEnd data = .ok m2 := by
+    have := w.p2; rw [hm1] at this; exact this
+  have hp3a : phase3a c m2 L.off data.length = .ok m3a := w.p3a
+  have hp3 : phase3 c m3a L.off data.length = .ok m3 := w.p3
+  have hlate : late.toNat ≤ 1 := by cases late <;> simp
+  unfold writeFromR
+  rw [hp1]
+  simp only
+  rw [hp2]
+  simp only
+  rw [hp3a]
+  simp only
+  rw [hp3]
+  simp only
+  -- the undisturbed attempt
+  have n1 := syncUnitsR_none c.unit (List.range ((({ st with cache := st.cache.set (L.off + 1) 0 } : RSR).belief.length + c.unit - 1) / c.unit))
+    { st with cache := st.cache.set (L.off + 1) 0 }
+  have f1 := syncR_fault c.unit { st with cache := st.cache.set (L.off + 1) 0 } k late
+  change (syncR c.unit { st with cache := st.cache.set (L.off + 1) 0 } none).failed = false ∧
+    (syncR c.unit { st with cache := st.cache.set (L.off + 1) 0 } none).fault = none at n1
+  generalize syncR c.unit { st with cache := st.cache.set (L.off + 1) 0 } none = R1 at n1 f1 ⊢
+  simp only [n1.1, n1.2, Bool.false_eq_true, if_false]
+  have n2 := syncUnitsR_none c.unit (List.range ((({ R1.st with cache := m2 } : RSR).belief.length + c.unit - 1) / c.unit))
+    { R1.st with cache := m2 }
+  change (syncR c.unit { R1.st with cache := m2 } none).failed = false ∧
+    (syncR c.unit { R1.st with cache := m2 } none).fault = none at n2
+  have f2 := fun k' => syncR_fault c.unit { R1.st with cache := m2 } k' late
+  generalize syncR c.unit { R1.st with cache := m2 } none = R2 at n2 f2 ⊢
+  simp only [n2.1, n2.2, Bool.false_eq_true, if_false]
+  have n3a := syncUnitsR_none c.unit (List.range ((({ R2.st with cache := m3a } : RSR).belief.length + c.unit - 1) / c.unit))
+    { R2.st with cache := m3a }
+  change (syncR c.unit { R2.st with cache := m3a } none).failed = false ∧
+    (syncR c.unit { R2.st with cache := m3a } none).fault = none at n3a
+  have f3a := fun k' => syncR_fault c.unit { R2.st with cache := m3a } k' late
+  generalize syncR c.unit { R2.st with cache := m3a } none = R3a at n3a f3a ⊢
+  simp only [n3a.1, n3a.2, Bool.false_eq_true, if_false]
+  have f3 := fun k' => syncR_fault c.unit { R3a.st with cache := m3 } k' late
+  generalize syncR c.unit { R3a.st with cache := m3 } none = R3 at f3 ⊢
+  -- the disturbed attempt, stage by stage
+  rcases Nat.lt_or_ge k R1.cmds.length with h1 | h1
+  · obtain ⟨e1, e2⟩ := f1.1 h1
+    rw [e2]
+    simp only [if_true]
+    rw [e1]
+    have := take_mid' (R1.cmds ++ R2.cmds ++ R3a.cmds ++ R3.cmds) [] R1.cmds (R2.cmds ++ R3a.cmds ++ R3.cmds)
+      (by simp [List.append_assoc]) k late.toNat (by simp) (by simp; omega)
+    simpa using this
+  rw [f1.2 h1]
+  simp only [Bool.false_eq_true, if_false]
+  rcases Nat.lt_or_ge (k - R1.cmds.length) R2.cmds.length with h2 | h2
+  · obtain ⟨e1, e2⟩ := (f2 _).1 h2
+    rw [e2]
+    simp only [if_true]
+    rw [e1]
+    exact take_mid' (R1.cmds ++ R2.cmds ++ R3a.cmds ++ R3.cmds) R1.cmds R2.cmds (R3a.cmds ++ R3.cmds)
+      (by simp [List.append_assoc]) k late.toNat h1 (by omega)
+  rw [(f2 _).2 h2]
+  simp only [Bool.false_eq_true, if_false]
+  rcases Nat.lt_or_ge (k - R1.cmds.length - R2.cmds.length) R3a.cmds.length with h3a | h3a
+  · obtain ⟨e1, e2⟩ := (f3a _).1 h3a
+    rw [e2]
+    simp only [if_true]
+    rw [e1]
+    have := take_mid' (R1.cmds ++ R2.cmds ++ R3a.cmds ++ R3.cmds) (R1.cmds ++ R2.cmds) R3a.cmds R3.cmds
+      rfl k late.toNat (by simp; omega) (by simp; omega)
+    simp only [List.length_append] at this
+    rw [show k - (R1.cmds.length + R2.cmds.length) = k - R1.cmds.length - R2.cmds.length by omega] at this
+    exact this
+  rw [(f3a _).2 h3a]
+  simp only [Bool.false_eq_true, if_false]
+  rcases Nat.lt_or_ge (k - R1.cmds.length - R2.cmds.length - R3a.cmds.length) R3.cmds.length with h3 | h3
+  · obtain ⟨e1, _⟩ := (f3 _).1 h3
+    rw [e1]
+    have := take_mid' (R1.cmds ++ R2.cmds ++ R3a.cmds ++ R3.cmds) (R1.cmds ++ R2.cmds ++ R3a.cmds) R3.cmds []
+      (by simp) k late.toNat (by simp; omega) (by simp; omega)
+    simp only [List.length_append] at this
+    rw [show k - (R1.cmds.length + R2.cmds.length + R3a.cmds.length)
+      = k - R1.cmds.length - R2.cmds.length - R3a.cmds.length by omega] at this
+    exact this
+  rw [(f3 _).2 h3]
+  simp only
+  rw [List.take_of_length_le (by simp; omega)]
+
+/-- the tag executes exactly the recorded commands of an attempt -/
+theorem writeFromR_tag_apply (c : Cfg) (L : Layout) (st : RSR) (data : Bytes) (f : Option Fault) :
+    (writeFromR c L st data f).st.tag = apply st.tag (writeFromR c L st data f).cmds := by
+  unfold writeFromR
+  cases phase1 c st.cache L.off with
+  | error e => rfl
+  | ok m1 =>
+    simp only
+    have a1 := syncR_tag_apply c.unit { st with cache := m1 } f
+    generalize syncR c.unit { st with cache := m1 } f = s1 at a1 ⊢
+    simp only at a1
+    by_cases h1 : s1.failed = true
+    · simp only [h1, if_true]; exact a1
+    simp only [h1, Bool.false_eq_true, if_false]
+    cases phase2 c m1 L.off L.skip L.areaEnd data with
+    | error e => exact a1
+    | ok m2 =>
+      simp only
+      have a2 := syncR_tag_apply c.unit { s1.st with cache := m2 } s1.fault
+      generalize syncR c.unit { s1.st with cache := m2 } s1.fault = s2 at a2 ⊢
+      simp only at a2
+      by_cases h2 : s2.failed = true
+      · simp only [h2, if_true]; rw [a2, a1, apply_append]
+      simp only [h2, Bool.false_eq_true, if_false]
+      cases phase3a c m2 L.off data.length with
+      | error e => simp only; rw [a2, a1, apply_append]
+      | ok m3a =>
+        simp only
+        have a3a := syncR_tag_apply c.unit { s2.st with cache := m3a } s2.fault
+        generalize syncR c.unit { s2.st with cache := m3a } s2.fault = s3a at a3a ⊢
+        simp only at a3a
+        by_cases h3a : s3a.failed = true
+        · simp only [h3a, if_true]; rw [a3a, a2, a1, apply_append, apply_append]
+        simp only [h3a, Bool.false_eq_true, if_false]
+        cases phase3 c m3a L.off data.length with
+        | error e => simp only; rw [a3a, a2, a1, apply_append, apply_append]
+        | ok m3 =>
+          simp only
+          have a3 := syncR_tag_apply c.unit { s3a.st with cache := m3 } s3a.fault
+          simp only at a3
+          rw [a3, a3a, a2, a1, apply_append, apply_append, apply_append]
+
 end NfcVerif.Hist
